@@ -7,8 +7,9 @@
     over ``MutationController.create_mutants()`` computes, per test, the mutants whose assertions are violated:
     kills(B) must contain kills(A).
 
-SUTs: the shared corpus modules plus a deliberately *flaky* module written to the scratch directory (an object whose
-``__len__`` works once per process and raises afterwards, a function whose result changes after the first call): the
+SUTs: the shared corpus modules plus a deliberately *flaky* module written to the scratch directory (drawn subset of: an object whose
+``__len__`` works once per process and raises afterwards, a function whose result changes after the first call, objects with a
+value-changing field AND a disappearing attribute at once, so that one statement has failing and erroring assertions): the
 filtering pass has to remove the assertions that do not hold / raise on re-execution.
 """
 
@@ -21,10 +22,23 @@ from typing import Any
 
 from hypothesis import strategies as st
 
-FLAKY_SOURCE = '''"""Deliberately flaky SUT for C21: assertions observed in the first execution do not hold later."""
+FLAKY_HEAD = '''"""Deliberately flaky SUT for C21: assertions observed in the first execution do not hold later."""
 _len_calls = 0
 _value_calls = 0
+_constructed = 0
+_made = 0
 
+
+def stable(value: int) -> int:
+    if value > 3:
+        return value - 3
+    return 3 - value
+'''
+
+# member name -> source; which members a case uses is drawn ("flaky_mask")
+FLAKY_MEMBERS = {
+    # len() works once per process, raises afterwards -> the length assertion ERRORS on re-execution
+    "box": '''
 
 class Box:
     def __init__(self, value: int) -> None:
@@ -43,7 +57,9 @@ class Box:
 
 def make_box(value: int) -> Box:
     return Box(value)
-
+''',
+    # the result changes after the first call -> the value assertion FAILS on re-execution
+    "unstable": '''
 
 def unstable(value: int) -> int:
     global _value_calls
@@ -51,13 +67,45 @@ def unstable(value: int) -> int:
     if _value_calls > 1:
         return value + 1
     return value
+''',
+    # both kinds on the SAME object (hence the same statement): 'serial' changes per construction (FAILS),
+    # 'warmup' exists only on the very first object (AttributeError -> ERRORS), 'label' is stable
+    "tracker": '''
+
+class Tracker:
+    def __init__(self) -> None:
+        global _constructed
+        _constructed += 1
+        self.serial = _constructed
+        if _constructed == 1:
+            self.warmup = True
+        self.label = "s"
+''',
+    # the same two kinds on an object returned by a function, plus a value that disappears instead of changing
+    "record": '''
+
+class Record:
+    def __init__(self, first: bool, number: int) -> None:
+        self.number = number
+        self.kind = "r"
+        if first:
+            self.once = 7
+            self.twice = "x"
 
 
-def stable(value: int) -> int:
-    if value > 3:
-        return value - 3
-    return 3 - value
-'''
+def make_record(value: int) -> Record:
+    global _made
+    _made += 1
+    return Record(_made == 1, _made + value - value)
+''',
+}
+FLAKY_ORDER = ["box", "unstable", "tracker", "record"]
+
+
+def flaky_source(mask: int) -> str:
+    members = [m for i, m in enumerate(FLAKY_ORDER) if mask & (1 << i)] or list(FLAKY_ORDER)
+    return FLAKY_HEAD + "".join(FLAKY_MEMBERS[m] for m in members)
+
 
 STRATEGIES = ["FIRST_ORDER_MUTANTS", "FIRST_TO_LAST", "EACH_CHOICE", "BETWEEN_OPERATORS", "RANDOM"]
 
@@ -72,9 +120,11 @@ def strategy(ctx) -> st.SearchStrategy | None:
 
     return st.fixed_dictionaries({
         "kind": st.just("session"),
-        # quick tier: half of the (few) sessions use the flaky module, so that the filtering pass is always exercised
-        "module": st.sampled_from([*MODULES, *(["flaky"] * (len(MODULES) if ctx.tier == "quick" else 3))]),
+        # quick tier: two thirds of the (few) sessions use the flaky module, so that the filtering pass is always exercised
+        "module": st.sampled_from([*MODULES, *(["flaky"] * (2 * len(MODULES) if ctx.tier == "quick" else 3))]),
         "seed": st.integers(0, 10_000),
+        # which flaky members the generated SUT has (bit i = FLAKY_ORDER[i]); all of them half of the time
+        "flaky_mask": st.one_of(st.just(15), st.sampled_from([4, 8, 12, 5, 6, 9, 10, 13, 14, 7, 11])),
         "ntests": st.integers(1, 3),
         "size": st.integers(3, 7),
         "mode": st.sampled_from(["plain", "mutation", "mutation"]),
@@ -105,7 +155,7 @@ def evaluate_session(case: dict, out: Any) -> None:  # noqa: C901
         if case["module"] == "flaky":
             name = "vfsut_c21_" + hashlib.sha1(repr(sorted(case.items())).encode()).hexdigest()[:10]
             with open(os.path.join(scratch, name + ".py"), "w", encoding="utf-8") as fh:
-                fh.write(FLAKY_SOURCE)
+                fh.write(flaky_source(int(case.get("flaky_mask", 15))))
             module_dir = scratch
         else:
             name, module_dir = case["module"], CORPUS_DIR
